@@ -39,6 +39,7 @@ def plan(exe, tier):
         for lo in range(0, count, step):
             jobs.append((typ, "rnd", n, length, lo, min(count, lo + step), 256, 0))
 
+    jobs.append(("O", "types", 0, 0, 0, 1, 1, 0))   # optional<T> for other payload types (fixed scenario)
     if tier == "quick":
         exh("Q", 2, 4)
         exh("O", 2, 4)
